@@ -319,7 +319,9 @@ fn tuple_pool(rng: &mut Rng) -> Vec<&'static str> {
     let many = MANY.get_or_init(|| (0..160).map(|i| format!("t{}", i)).collect());
     match rng.below(12) {
         0 | 1 => many[..12].iter().map(|s| s.as_str()).collect(),
-        2 => many.iter().map(|s| s.as_str()).collect(),
+        // (a dozen under the interpreter: hundreds of operations over 160 children are an hour of Miri time)
+        2 if !cfg!(miri) => many.iter().map(|s| s.as_str()).collect(),
+        2 => many[..12].iter().map(|s| s.as_str()).collect(),
         _ => TUPLES.to_vec(),
     }
 }
